@@ -86,6 +86,27 @@ Visit(g, names, i, done) ==   \* done: sequence of names already emitted
 Order(g, root) == Visit(g, <<root>>, 1, <<>>)
 EbnfOf(g, root) == LET o == Order(g, root) IN [k \in 1..Len(o) |-> [name |-> o[k], expr |-> DefOf(g, o[k])]]
 
+\* ---- the ebnf package's printer (ebnf/ebnf.go String methods), as text ---------------------------------------------
+\* Term: "~"? (name | literal | "<" token ">" | "(" ("?=" | "?!")? Expression ")") repetition; terms of a sequence are joined
+\* by " ", alternatives by " | ".  (A literal's text carries its quotes.)
+RECURSIVE PrintExpr(_), PrintAlts(_, _), PrintSeq(_, _), PrintTerm(_)
+PrintTerm(t) == (IF t.neg THEN "~" ELSE "") \o
+                (CASE t.kind = "name" -> t.text
+                   [] t.kind = "lit" -> t.text
+                   [] t.kind = "tok" -> "<" \o t.text \o ">"
+                   [] t.kind = "grp" -> "(" \o (IF t.look = "" THEN "" ELSE "?" \o t.look) \o PrintExpr(t.expr) \o ")") \o t.rep
+PrintSeq(ts, i) == IF i > Len(ts) THEN "" ELSE (IF i > 1 THEN " " ELSE "") \o PrintTerm(ts[i]) \o PrintSeq(ts, i + 1)
+PrintAlts(as, i) == IF i > Len(as) THEN "" ELSE (IF i > 1 THEN " | " ELSE "") \o PrintSeq(as[i], 1) \o PrintAlts(as, i + 1)
+PrintExpr(e) == PrintAlts(e.alts, 1)
+\* a tree the ebnf grammar can produce: every alternative has a term, every group an expression, kinds carry their text
+RECURSIVE ParseShaped(_)
+ParseShaped(e) == /\ Len(e.alts) >= 1
+                  /\ \A a \in 1..Len(e.alts) : /\ Len(e.alts[a]) >= 1
+                                               /\ \A k \in 1..Len(e.alts[a]) :
+                                                     LET t == e.alts[a][k] IN
+                                                     IF t.kind = "grp" THEN t.text = "" /\ ParseShaped(t.expr)
+                                                     ELSE t.text # "" /\ t.look = "" /\ t.expr = NoExpr
+
 \* ---- the clauses of C14 on a parsed text `t` (sequence of [name, expr]) ------------------------------------------
 Names(t) == [k \in 1..Len(t) |-> t[k].name]
 DefinedOnce(t) == \A a, b \in 1..Len(t) : t[a].name = t[b].name => a = b
